@@ -101,6 +101,22 @@ pub fn genlib(args: &[String]) -> i32 {
             }
         }
     }
+    // entry "lib2": the same process first generates the same IR under *different* options into a
+    // scratch directory (as a build script generating several flavours does)
+    if let Ok(scratch_dir) = std::env::var("VERIF_PRIOR_GENERATION") {
+        let mut other = conjure_codegen::Config::new();
+        other.exhaustive(!b(&args[2])).serialize_empty_collections(!b(&args[3]));
+        match opt(&args[4]) {
+            Some(_) => {}
+            None => {
+                other.strip_prefix("com".to_string());
+            }
+        }
+        let _ = other.generate_files(ir, &scratch_dir);
+        let mut third = conjure_codegen::Config::new();
+        third.strip_prefix("com.palantir".to_string()).build_crate("other-product", "9.9.9");
+        let _ = third.generate_files(ir, format!("{}-b", scratch_dir));
+    }
     match c.generate_files(ir, out) {
         Ok(()) => 0,
         Err(e) => {
@@ -180,6 +196,9 @@ fn generate(entry: &str, ir: &Path, cfg: &Cfg, seed: u64, work: &Path, tag: &str
     } else {
         Command::new(&exe)
     };
+    if entry == "lib2" {
+        cmd.env("VERIF_PRIOR_GENERATION", work.join(format!("prior-{}-s{}", tag, seed)));
+    }
     cmd.args(argv.drain(..)).current_dir(&cwd).env("LD_PRELOAD", SHIM).env("VERIF_HASH_SEED", seed.to_string()).env("VERIF_ORDER_PROBE", &probe_file).env("RUST_BACKTRACE", "0");
     let outp = cmd.output();
     let (ok, stderr) = match outp {
@@ -277,7 +296,31 @@ fn extra_programs(work: &Path) -> Vec<(String, PathBuf)> {
             {"product-group": "g.a", "product-name": "a", "minimum-version": "2.0.0", "maximum-version": "2.x.x", "recommended-version": "2.2.0"}]}});
     let p = work.join("multi-package.json");
     std::fs::write(&p, serde_json::to_vec(&ir).unwrap()).unwrap();
-    vec![("multi-package".to_string(), p)]
+    // (2) reference cycles in which a property of a type (has a double / is Copy / log safety /
+    //     needs a box) is only reachable through a back edge, with observers outside the cycle:
+    //     memoised answers must not depend on which type a hash table yields first
+    let d = json!({"type": "primitive", "primitive": "DOUBLE"});
+    let o = |x: Value| json!({"type": "optional", "optional": {"itemType": x}});
+    let l = |x: Value| json!({"type": "list", "list": {"itemType": x}});
+    let mut cyc = vec![];
+    for k in 0..6 {
+        let pkg = "com.graph";
+        let n = |s: &str| format!("{}{}", s, k);
+        cyc.push(json!({"type": "object", "object": {"typeName": t(&n("Node"), pkg), "fields": [{"fieldName": "edge", "type": o(r(&n("Edge"), pkg))}, {"fieldName": "weight", "type": d}]}}));
+        cyc.push(json!({"type": "object", "object": {"typeName": t(&n("Edge"), pkg), "fields": [{"fieldName": "target", "type": o(r(&n("Node"), pkg))}, {"fieldName": "label", "type": s}]}}));
+        cyc.push(json!({"type": "object", "object": {"typeName": t(&n("Route"), pkg), "fields": [{"fieldName": "hops", "type": l(r(&n("Edge"), pkg))}, {"fieldName": "name", "type": s}]}}));
+        cyc.push(json!({"type": "union", "union": {"typeName": t(&n("Pick"), pkg), "union": [{"fieldName": "route", "type": r(&n("Route"), pkg)}, {"fieldName": "edge", "type": r(&n("Edge"), pkg)}]}}));
+        cyc.push(json!({"type": "alias", "alias": {"typeName": t(&n("Edges"), pkg), "alias": l(r(&n("Edge"), pkg))}}));
+    }
+    let eps: Vec<Value> = (0..6)
+        .map(|k| json!({"endpointName": format!("put{}", k), "httpMethod": "POST", "httpPath": format!("/r/{}", k),
+            "args": [{"argName": "b", "type": r(&format!("Route{}", k), "com.graph"), "paramType": {"type": "body", "body": {}}, "markers": [], "tags": []}],
+            "returns": r(&format!("Pick{}", k), "com.graph"), "markers": [], "tags": []}))
+        .collect();
+    let ir2 = json!({"version": 1, "errors": [], "types": cyc, "services": [{"serviceName": t("Graphs", "com.graph"), "endpoints": eps}], "extensions": {}});
+    let p2 = work.join("cycles-with-back-edge-doubles.json");
+    std::fs::write(&p2, serde_json::to_vec(&ir2).unwrap()).unwrap();
+    vec![("multi-package".to_string(), p), ("cycles-with-back-edge-doubles".to_string(), p2)]
 }
 
 pub fn run(args: &Args) -> Report {
@@ -329,7 +372,7 @@ pub fn run(args: &Args) -> Report {
             let mut reference: Option<(String, BTreeMap<String, Vec<u8>>)> = None;
             let mut probes = BTreeSet::new();
             for (si, seed) in seeds.iter().enumerate() {
-                for entry in ["lib", "cli"] {
+                for entry in ["lib", "cli", "lib2"] {
                     r.states += 1;
                     r.evaluations += 1;
                     r.transitions += 1;
@@ -359,7 +402,7 @@ pub fn run(args: &Args) -> Report {
                         Some((what, t)) => match diff(t, &run.tree) {
                             None => r.outcome("identical-tree"),
                             Some(d) => {
-                                let kind = if what.starts_with(entry) { "differs-across-hash-seeds" } else { "library-vs-cli" };
+                                let kind = if what.starts_with(&format!("{} ", entry)) { "differs-across-hash-seeds" } else if entry == "lib2" { "library-after-another-generation-in-the-same-process" } else { "library-vs-cli" };
                                 r.violation(format!("C20|{}|{}|{}", pname, kind, cfg.text()), format!("{} [{}]: output of {} seed {} differs from {}: {}", pname, cfg.text(), entry, seed, what, d), case);
                             }
                         },
